@@ -306,6 +306,10 @@ def append_slash_redirect(environ: WSGIEnvironment, code: int = 308) -> Response
     if not tail:
         new_path = "./"
     else:
+        # PATH_INFO holds the unquoted bytes of the path decoded as Latin-1.
+        # Quote them so the segment is a URL path segment again. A colon is
+        # quoted too, otherwise the relative URL would read as a scheme.
+        tail = quote(tail.encode("latin1"), safe="!$&'()*+,;=@")
         new_path = f"{tail}/"
 
     query_string = environ.get("QUERY_STRING")
